@@ -382,11 +382,13 @@ pub fn gen_world(rng: &mut Rng, cfg: &GenCfg) -> World {
     2 | 3 => GraphKind::CodeOnly,
     _ => GraphKind::TypesOnly,
   };
-  let attrs = canonical_attrs(rng, &specs);
-  let mut resp = vec![];
+  let mut attrs = canonical_attrs(rng, &specs);
+  // pass 1: what kind of answer each entry gives (module contents are generated afterwards, once
+  // the attribute every importer must use for a target is known through redirect chains)
+  let mut resp: Vec<Option<Resp>> = vec![];
   for i in 0..total {
     if let Some((_, r)) = forced.iter().find(|(k, _)| *k == i) {
-      resp.push(r.clone());
+      resp.push(Some(r.clone()));
       continue;
     }
     let roll = rng.below(100);
@@ -394,34 +396,53 @@ pub fn gen_world(rng: &mut Rng, cfg: &GenCfg) -> World {
     if roll < acc {
       let mut t = rng.below(total);
       if t == i && !cfg.allow_self_redirect {
-        // a loader answering "redirect to the very specifier requested" leaves the entry pending
-        // forever (finding F13, explored by C03 in child processes); avoided elsewhere
+        // a loader answering "redirect to the very specifier requested" is explored by C03
         t = (i + 1) % total;
       }
-      if t == i {
-        resp.push(Resp::Missing);
+      if t == i && !cfg.allow_self_redirect {
+        resp.push(Some(Resp::Missing));
       } else {
-        resp.push(Resp::Redirect(t));
+        resp.push(Some(Resp::Redirect(t)));
       }
       continue;
     }
     acc += cfg.p_missing;
     if roll < acc {
-      resp.push(Resp::Missing);
+      resp.push(Some(Resp::Missing));
       continue;
     }
     acc += cfg.p_error;
     if roll < acc {
-      resp.push(Resp::Error);
+      resp.push(Some(Resp::Error));
       continue;
     }
     acc += cfg.p_external;
     if roll < acc {
-      resp.push(Resp::External(i));
+      resp.push(Some(Resp::External(i)));
       continue;
     }
-    resp.push(gen_module(rng, cfg, &specs, i, &attrs));
+    resp.push(None);
   }
+  // a redirecting specifier must be imported with the attribute of where it ends up
+  for i in 0..total {
+    let mut cur = i;
+    for _ in 0..20 {
+      match &resp[cur] {
+        Some(Resp::Redirect(t)) => cur = *t,
+        _ => break,
+      }
+    }
+    if cur != i {
+      attrs[i] = attrs[cur].clone();
+    }
+  }
+  let resp: Vec<Resp> = (0..total)
+    .map(|i| match &resp[i] {
+      Some(r) => r.clone(),
+      None => gen_module(rng, cfg, &specs, i, &attrs),
+    })
+    .collect();
+  let mut resp = resp;
   // roots: 1-3 distinct
   let mut roots = vec![];
   let nroots = rng.range(1, 3.min(total));
